@@ -2,6 +2,7 @@ import ColumnVerif.Model.Wire
 import ColumnVerif.Model.Swap
 import ColumnVerif.Model.SnapRes
 import ColumnVerif.Model.Expire
+import ColumnVerif.Model.Widen
 import Driver.Util
 /-! `codec` mode: one commit buffer driven through the writer API, read back in every way. -/
 namespace Driver.CodecMode
@@ -116,6 +117,16 @@ def step (st : St) (line : String) : St × String :=
     match now.toInt?, ttl.toInt? with
     | some n, some t => (st, s!"deadline={ColumnVerif.Store.writeTTL n t}")
     | _, _ => (st, "bad-op")
+  | ["readany", hex] =>
+    -- what an `int` / `uint` column makes of an operation value of any width (Reader.Int / Reader.Uint)
+    match unhex hex with
+    | some bs =>
+      let sh := fun {α} [ToString α] (o : Option α) => match o with | some v => toString v | none => "panic"
+      let slot := fun (o : Option Bytes) => match o with | some b => hexOf b | none => "panic"
+      (st, s!"int={sh (readIntAny bs)} uint={sh (readUintAny bs)} islot={slot (widenInt true bs)} uslot={slot (widenInt false bs)}")
+    | none => (st, "bad-op")
+  | ["readany"] =>
+    (st, s!"int=panic uint=panic islot=panic uslot=panic")
   | ["log-new"] => ({ st with log := [] }, "ok")
   | ["logplain", hex] =>
     match unhex hex with
